@@ -90,17 +90,22 @@ PROPS["C07"]["functions"] += [WEB + "StoreBasedCollection.iter_differences_since
                               "xandikos.store.git.BareGitStore.get_ctag"]
 PROPS["C08"]["functions"] += [WEB + "StoreBasedCollection.get_ctag", WEB + "StoreBasedCollection.get_sync_token",
                               WEB + "StoreBasedCollection.get_etag"]
+PROPS["C01"]["functions"] += [W + "PostMethod.handle"]
+PROPS["C02"]["functions"] += [W + "_do_get"]
+PROPS["C03"]["functions"] += [W + "_do_get"]
 PROPS["C13"] = {
     "level": "proof",
     "functions": [WEB + "XandikosBackend._map_to_file_path", WEB + "XandikosBackend.get_resource",
                   WEB + "XandikosBackend.create_collection", W + "MkcolMethod.handle",
                   WEB + "StoreBasedCollection.delete_member"],
     "assumptions": ["no symbolic links inside the data root", "dulwich and os primitives touch only the path they are given"],
+    # 'a refused MKCOL creates nothing' is C01's obligation (where its known finding is listed)
+    "exclude": ["nothing_created"],
 }
 PROPS["C16"] = {
     "level": "proof",
     "functions": [W + "ensure_trailing_slash", W + "create_href", W + "read_href_element", W + "href_to_path",
-                  W + "traverse_resource"],
+                  W + "traverse_resource", W + "PostMethod.handle"],
 }
 PROPS["C17"] = {
     "level": "other",
